@@ -76,6 +76,18 @@ func runOne(id int, seed int64, nops int, base string, pool *storeh.Pool, replay
 	}
 	g.Resync()
 	dump := storeh.FullDump(g)
+	// range reads (one ReadAt over several entries) for the concurrent phase
+	if n := int64(len(g.Chain)); n > 0 {
+		for _, k := range []int64{1, 2, n - 1, n / 2} {
+			if k < 0 {
+				continue
+			}
+			for _, t := range []int64{g.Chain[n-1], g.Chain[n/2]} {
+				dump = append(dump, storeh.Op{Kind: "qbanc", N: k, X: t, WF: true}, storeh.Op{Kind: "qfanc", N: k, X: t, WF: true})
+			}
+		}
+		dump = append(dump, storeh.Op{Kind: "qlocator", X: g.Chain[n-1], WF: true})
+	}
 	for i := range dump {
 		e.Exec(&dump[i])
 		h.Ops = append(h.Ops, dump[i])
